@@ -588,7 +588,10 @@ def replay_c08(d, case):
     fields, limit, serial = case['args']
     with contextlib.redirect_stdout(io.StringIO()):
         try:
-            out = Mandoline(os.path.join(d, 'plt'), fields=list(fields), limit_level=limit, serial=serial, verbose=0).slice(fformat='return')
+            mnd = Mandoline(os.path.join(d, 'plt'), fields=list(fields), limit_level=limit, serial=serial, verbose=0)
+            if case.get('again'):
+                mnd.slice(fformat='return')
+            out = mnd.slice(fformat='return')
         except Exception as e:
             return True, 'raised %s: %s' % (type(e).__name__, e)
     for attempt in range(2):
@@ -943,7 +946,13 @@ def replay_c19(d, case):
     pck = PlotfileCooker(os.path.join(d, 'plt'))
     fsel = eval(case['fsel'])
     try:
-        got = pck[fsel](*case['point'])
+        sel = pck[fsel]
+        if case.get('prior'):
+            try:
+                sel(*case['prior'])
+            except Exception:
+                pass
+        got = sel(*case['point'])
     except Exception as e:
         if case['expected'] is None:
             return False, 'refused as required'
